@@ -155,16 +155,18 @@ class BytecodeCache:
 
     def get_cache_key(self, name: str, filename: str | None = None) -> str:
         """Returns the unique hash key for this template name."""
-        hash = sha1(name.encode("utf-8"))
+        # surrogatepass: names and paths decoded from undecodable bytes
+        # (os.fsdecode) contain lone surrogates
+        hash = sha1(name.encode("utf-8", "surrogatepass"))
 
         if filename is not None:
-            hash.update(f"|{filename}".encode())
+            hash.update(f"|{filename}".encode("utf-8", "surrogatepass"))
 
         return hash.hexdigest()
 
     def get_source_checksum(self, source: str) -> str:
         """Returns a checksum for the source."""
-        return sha1(source.encode("utf-8")).hexdigest()
+        return sha1(source.encode("utf-8", "surrogatepass")).hexdigest()
 
     def get_bucket(
         self,
